@@ -493,9 +493,37 @@ func init() {
 				kC07.Do(c, c07Case{Src: src, Input: run.TV{V: 1}, Opt: "query"})
 			}
 			c07Generated(c)
+			// every kind of run-time error, uncaught, in every kind of surrounding state (pending forks, open frames, open
+			// path scopes, iterators on the stack): the driver keeps calling Next after each error value
+			for ei, e := range c07Errors {
+				for ci, cx := range c07ErrCtxs {
+					if c.Quick() && (ei+ci)%3 != 0 {
+						continue
+					}
+					in := inputs[(ei+ci)%len(inputs)]
+					opt := ""
+					if (ei+ci)%7 == 0 {
+						opt = "query"
+					}
+					kC07.Do(c, c07Case{Src: strings.ReplaceAll(cx, "%E", e), Input: run.TV{V: in}, Opt: opt})
+				}
+			}
 		},
 	})
 }
+
+var c07Errors = []string{
+	"1 | .[]", "path([1] | .[])", "path({a: 1} | .[])", "path(1 | .[])", "path({a: 1} | .a)", "path([1] | .[0])", "path({} | .[])", "path([] | .[])", "path(\"a\" | .[0])", "path({a: {b: 1}} | .a.b)", "path([[1]] | .[0][0])",
+	"path(1 | getpath([\"a\"]))", "path({a: 1} | getpath([\"a\"]))", "path([1, 2] | .[1:])", "path({a: [1]} | .a[])", "path(. as $d | {a: $d} | .a)", "[paths({a: 1} | .[])]", "({a: 1} | .[]) |= 1", "({a: 1} | .a) = 1", "del([1] | .[0])",
+	"1 | .a", "{} | .[0]", "[] | .a", "null | .[{}]", "{(1): 2}", "{a: 1, (null): 2}", "error", "error(null)", "error({a: 1})", "1 + \"a\"", "[] | implode", "\"a\" | tonumber", "{} - 1", "[] | ltrimstr(1) | error", "1 / 0", "1 % 0",
+	". as [$a] | $a | error", "{} as [$a] | $a", "[] as {a: $x} | $x", "1 as [$a] ?// {a: $a} | $a", "try error(\"x\") catch error", "try error(\"x\") catch error(null)", "(1, 2) | error", "1 | getpath([\"a\", \"b\"])", "{} | setpath([1]; 1)",
+	"[] | delpaths([[\"a\"]])", "1 | to_entries", "{} | has(1)", "range(\"a\")", "{} | .[1:2]", "test(\"(\")", "\"!\" | @base64d", "\"{\" | fromjson", "[1] | join(1)?, error(\"j\")", "reduce error(\"r\") as $x (0; .)", "reduce 1 as $x (error(\"s\"); .)",
+	"reduce 1 as $x (0; error(\"u\"))", "foreach (1, 2) as $x (0; error(\"f\"); .)", "foreach 1 as $x (0; 1; error(\"g\"))", "limit(1; error(\"l\"))", "first(error(\"f\"))", "label $l | error(\"b\")", "input", "$__loc__ | .nope | error", "[.[]?] | .[\"a\"]",
+	"error(\"a\"), error(\"b\")", "1, error(\"mid\"), 2, error(\"end\")", "[1 | .[]]", "{a: (1 | .[])}", "path(..) | error", "tostream | error", "getpath([\"a\"]) | .[0] | .b | error(\"deep\")", "ascii | error", "splits(1)", "halt_error", "{} | halt_error(1)",
+}
+
+var c07ErrCtxs = []string{"%E", "1, (%E), 2", "[%E]", "{a: 1, b: (%E)}", "(%E) as $x | 1", "first(%E)", "label $l | (%E)", "reduce (%E) as $x (0; .)", "path(%E)", "(%E) // 1", "try (%E) catch error", ".[]? | (%E)", "def f: %E; f, f", "limit(2; %E)",
+	"(%E) | 1", "[.[]? | (%E)?] , (%E)", "(1, 2) | (%E)", "[limit(3; repeat(1))] | (%E)", "path(.. | (%E))?, (%E)", "foreach (1, 2) as $i (0; (%E); .)", "[1, 2] | .[] as $i | (%E)", "{a: [1]} | .a[] |= (%E)", "(%E), (%E)", "isempty(%E), (%E)"}
 
 // c07Generated adds PRNG-generated core-grammar programs (finite and looping) to the pool.
 var c07Generated = func(c *run.Ctx) {
